@@ -452,3 +452,62 @@ def gen_migrate(seed, n):
         lines.append("mig " + paths[layout])
         lines.append("mig " + paths[layout])
     return "\n".join(lines) + "\n", {"histories": n}
+
+
+# ---------------- C20: prost bindings vs the wire model (evaluated inside Coq on the regenerated tables) ----------------
+def coq_eval(body, tag):
+    """runs one cases file through coqc (vm_compute) and returns the text of the single string it prints"""
+    d = os.path.join(WORK, "cases"); os.makedirs(d, exist_ok=True)
+    p = os.path.join(d, "cases_%s_%d.v" % (tag, os.getpid()))
+    open(p, "w").write("From MW.Proto Require Import Codec Sample Cases.\nFrom MW.Gen Require Import Schema ProtoTables.\nOpen Scope N_scope.\n" + body + "\n")
+    rc, out, dt = run("ulimit -s unlimited; timeout 1500 coqc -q -noglob -Q %s MW %s" % (COQ, p), cwd=d)
+    for ext in (".v", ".vo", ".vok", ".vos", ".glob"):
+        try:
+            os.remove(p[:-2] + ext)
+        except OSError:
+            pass
+    if rc != 0 or '"' not in out:
+        raise RuntimeError("coqc evaluation of proto cases failed: " + out[-1500:])
+    return out[out.index('"') + 1:out.rindex('"')].replace('""', '"'), dt
+
+
+def proto_cases(seed):
+    text, dt = coq_eval("Eval vm_compute in proto_lines gen_schema gen_type_urls %d." % seed, "s%d" % seed)
+    ops = ["cfg proto %d" % seed]; exp = ["== cfg proto %d" % seed]; k = 0
+    for l in text.splitlines():
+        if not l.strip():
+            continue
+        a, b = l.split(" => "); k += 1
+        ops.append(a); exp.append("#%d %s %s" % (k, a.split(" ")[0], b))
+    return ops, exp, dt
+
+
+def proto_eval(op_lines):
+    """model observations for given proto op lines (replay / shrinking)"""
+    items = []; exp = []
+    def q(s):
+        return '"' + s.replace('"', '""') + '"'
+    for l in op_lines:
+        t = l.split(" ")
+        if t[0] in ("prt", "prtx"):
+            items.append("(%s, %s, %s, %s)" % (q(t[0]), q(t[1]), q(""), q(t[2][1:])))
+        elif t[0] == "pany":
+            items.append("(%s, %s, %s, %s)" % (q("pany"), q(t[1]), q(t[2]), q(t[3][1:])))
+    text, dt = coq_eval("Eval vm_compute in eval_ops gen_schema gen_type_urls [%s]%%string." % "; ".join(items), "ev")
+    res = [l for l in text.splitlines() if l.strip()]
+    out = []; k = 0
+    for l in op_lines:
+        if l.startswith("cfg "):
+            out.append("== " + l)
+        elif l.split(" ")[0] in ("prt", "prtx", "pany"):
+            out.append("#%d %s" % (k + 1, res[k])); k += 1
+    return out
+
+
+def gen_proto(seed, n):
+    import concurrent.futures as cf
+    ops = []; exp = []; t = 0.0
+    with cf.ThreadPoolExecutor(max_workers=8) as ex:
+        for o, e, dt in ex.map(proto_cases, [seed * 100 + k for k in range(n)]):
+            ops += o; exp += e; t += dt
+    return "\n".join(ops) + "\n", "\n".join(exp) + "\n", {"seeds": n, "coq_s": round(t, 1)}
